@@ -76,13 +76,15 @@ REQUIRED = [("faults_issued_by_the_simulator", "requests_for_known_failing_input
             ("environment_dimensions_exercised", "processes_under_a_host_executable_name"), ("environment_dimensions_exercised", "processes_with_a_manifest_on_disk"),
             ("environment_dimensions_exercised", "processes_with_cargo_variables"), ("environment_dimensions_exercised", "processes_pinned_to_a_cpu_subset"),
             ("environment_dimensions_exercised", "processes_serving_1000_or_more_requests"), ("environment_dimensions_exercised", "processes_on_a_terminal"),
-            ("environment_dimensions_exercised", "processes_with_resource_limits"), ("environment_dimensions_exercised", "processes_with_lock_toolchain_or_cargo_config_files")]
+            ("environment_dimensions_exercised", "processes_with_resource_limits"), ("environment_dimensions_exercised", "processes_with_fast_or_jumping_clock"),
+            ("environment_dimensions_exercised", "processes_with_stub_programs_on_path"), ("environment_dimensions_exercised", "processes_with_lock_toolchain_or_cargo_config_files")]
 
 
 def do_check(tier, seed, t0):
     os.makedirs(REPLAYS, exist_ok=True)
     build()
     viol_lines = []
+    kf_lines = []
     layers = {}
 
     # ---- layer A1: native session simulator
@@ -130,6 +132,17 @@ def do_check(tier, seed, t0):
             viol_lines.append("VIOLATION property=C19 replay=%s" % v["replay"])
             log("  %s: %s" % (v["replay"], v["what"]))
         layers["A3_real_rustc"] = {k: a3[k] for k in a3 if k != "violations"}
+        if a3["known_finding_matches"]:
+            listed = {f["id"]: f for f in known_findings("C19")}
+            smp = a3["known_finding_sample"]
+            if smp["id"] in listed:
+                kf_lines.append("KNOWN-FINDING: property=C19 %s: %s [%d module comparisons differ exactly as the defect model says; e.g. expected %s, observed %s]" % (
+                    smp["id"], listed[smp["id"]]["identified_by"][:300], a3["known_finding_matches"], smp["expected_literals"][:1], smp["observed_literals"][:1]))
+            else:
+                path = os.path.join(REPLAYS, "C19-%d-a3-unlisted-%s.json" % (seed, smp["id"]))
+                json.dump({"property": "C19", "engine": "sessim", "layer": "A3-real-rustc", "kind": "unlisted-known-finding", "seed": seed,
+                           "what": "matches defect model %s, which known_findings.json does not list as open" % smp["id"], "sample": smp}, open(path, "w"), indent=1, ensure_ascii=False)
+                viol_lines.append("VIOLATION property=C19 replay=%s" % path)
 
     # ---- layer A2 (thorough only): the session inside Miri
     a2 = None
@@ -175,6 +188,8 @@ def do_check(tier, seed, t0):
         "only the class of an expander panic is observed (the statement is about token sequences)",
     ]
     write_evidence("C19", tier, seed, "exploration", coverage, wall, len(viol_lines), assumptions)
+    for l in kf_lines:
+        print(l)
     for l in viol_lines:
         print(l)
     log("C19 %s: %d sessions, %d requests, %d contexts, %.1fs" % (tier, a["sessions"], a["requests"], a["distinct_contexts"], wall))
